@@ -144,33 +144,137 @@ def spanning_hit_gene(ctx: Context, where: Dict[str, Any]) -> bool:
             and any(ctx.spanning(i) for i in ctx.hit_genes()))
 
 
-def window_edge(ctx: Context, where: Dict[str, Any]) -> bool:
-    """ circular; the rule's search window around a gene with hits crosses the origin (two parts) and
-        another gene with hits shares a base with that window without each of its parts lying inside
-        one part of the window (for two-part windows only such fully contained genes are looked at;
-        this includes a gene lying across the seam of a two-part window that covers the whole ring) """
+def _gene_parts(ctx: Context, index: int) -> list:
+    gene = ctx.case["genes"][index]
+    if gene[1] > ctx.length:
+        return [(gene[0], ctx.length), (0, gene[1] - ctx.length)]
+    return [(gene[0], gene[1])]
+
+
+def _lookup_as_coded(ctx: Context, window: Tuple[int, int, int]) -> set:
+    """ MODEL OF THE DEFECT (used for classification only, never by the oracle): the genes that
+        Record.get_cds_features_within_location(window, with_overlapping=True) yields as the code base
+        implements it - a sorted list in which an origin-spanning gene sorts first (negative key) and has
+        location.start 0, a bisect to the first gene not before the window, stepping back only over
+        directly preceding genes that overlap the window, a forward scan that stops at the first gene that
+        neither lies in / overlaps the window nor contains its successor, and for a two-part window only
+        the genes each of whose parts lies inside one part of the window """
+    length = ctx.length
+    count = len(ctx.case["genes"])
+    parts = {i: _gene_parts(ctx, i) for i in range(count)}
+
+    def sort_key(i: int) -> Tuple[int, int]:
+        start, end, _ = ctx.case["genes"][i]
+        return (start - length if end > length else start, end - start)
+
+    order = sorted(range(count), key=sort_key)
+
+    def overlaps(i: int, low: int, high: int) -> bool:
+        return any(s < high and low < e for s, e in parts[i])
+
+    def inside(i: int, low: int, high: int) -> bool:
+        return all(low <= s and e <= high for s, e in parts[i])
+
+    def one_part(low: int, high: int) -> List[int]:
+        index = sum(1 for i in order if sort_key(i) < (low, high - low))
+        while index > 0 and min(s for s, _ in parts[order[index - 1]]) == low:
+            index -= 1
+        while index >= 1 and overlaps(order[index - 1], low, high):
+            index -= 1
+        found = []
+        while index < count:
+            gene = order[index]
+            if inside(gene, low, high) or overlaps(gene, low, high):
+                found.append(gene)
+            elif index + 1 < count and all(any(s2 <= s and e <= e2 for s2, e2 in parts[gene])
+                                           for s, e in parts[order[index + 1]]):
+                pass
+            else:
+                break
+            index += 1
+        return found
+
+    start, size, pieces = window
+    if pieces == 1:
+        return set(one_part(start, start + size))
+    upper, lower = (start, length), (0, start + size - length)
+    found = one_part(*upper) + one_part(*lower)
+    return {i for i in found if all(any(low <= s and e <= high for low, high in (upper, lower)) for s, e in parts[i])}
+
+
+def _reported_under(ctx: Context, rule: Dict[str, Any], scan_defect: bool) -> set:
+    """ the anchoring genes that result when the neighbours of a gene are looked up as the code base does
+        it (all distances correct). scan_defect False: only "two-part windows see fully contained genes
+        only" is modelled; True: the whole lookup as coded (also the C08 scan that loses genes).
+        Neighbours that supply a missing profile to a gene at which the rule fires are reported with it. """
+    hits, cutoff, cond, length = ctx.case["hits"], rule["cut"], rule["cond"], ctx.length
+    genes = list(range(len(hits)))
+
+    def visible(i: int) -> set:
+        window = ctx.window(i, cutoff)
+        if scan_defect:
+            return _lookup_as_coded(ctx, window)
+        if window[2] != 2:
+            return set(genes)
+        upper, lower = (window[0], length), (0, window[0] + window[1] - length)
+        return {j for j in genes
+                if all(any(low <= s and e <= high for low, high in (upper, lower)) for s, e in _gene_parts(ctx, j))}
+
+    reported = set()
+    for i in genes:
+        own = hits[i]
+        if not own:
+            continue
+        can_see = visible(i)
+        seen = [j for j in genes if j != i and hits[j] and j in can_see and ctx.geo.dist(i, j) < cutoff]
+        if cond == "a and b":
+            missing = [p for p in "ab" if p not in own]
+            helpers = {p: [j for j in seen if p in hits[j]] for p in missing}
+            if len(missing) < 2 and all(helpers[p] for p in missing):
+                reported.add(i)
+                for p in missing:
+                    reported.update(helpers[p])
+        elif cond == "a and not c":
+            if "a" in own and "c" not in own and not any("c" in hits[j] for j in seen):
+                reported.add(i)
+        elif cond == "minimum(2,[a,b])":
+            mine = sum(1 for p in "ab" if p in own)
+            if mine >= 2:
+                reported.add(i)
+            elif mine == 1:
+                helpers2 = [j for j in seen if "a" in hits[j] or "b" in hits[j]]
+                if mine + sum(1 for j in helpers2 for p in "ab" if p in hits[j]) >= 2:
+                    reported.add(i)
+                    reported.update(helpers2)
+    return reported
+
+
+def _anchor_model(ctx: Context, where: Dict[str, Any], scan_defect: bool) -> bool:
     rule = ctx.rule(where)
     if not rule or not ctx.circular or not needs_neighbours(ctx, where):
         return False
-    hit = ctx.hit_genes()
-    length = ctx.length
-    for i in hit:
-        if not ctx.wraps(i, rule["cut"]):
-            continue
-        start, size, _ = ctx.window(i, rule["cut"])
-        upper = frozenset(range(start, length))
-        lower = frozenset(range(0, start + size - length))
-        for j in hit:
-            if j == i or not ctx.geo.bases[j] & (upper | lower):
-                continue
-            gene = ctx.case["genes"][j]
-            if gene[1] > length:
-                parts = [frozenset(range(gene[0], length)), frozenset(range(0, gene[1] - length))]
-            else:
-                parts = [frozenset(range(gene[0], gene[1]))]
-            if not all(part <= upper or part <= lower for part in parts):
-                return True
-    return False
+    key = ("anchors-as-coded", rule["n"], scan_defect)
+    if key not in ctx._memo:  # pylint: disable=protected-access
+        expected = chk.expected_anchors(ctx.case, rule, ctx.geo)
+        ctx._memo[key] = _reported_under(ctx, rule, scan_defect) != expected  # pylint: disable=protected-access
+    return ctx._memo[key]  # pylint: disable=protected-access
+
+
+def lookup_scan_loses_neighbour(ctx: Context, where: Dict[str, Any]) -> bool:
+    """ circular; the rule looks at neighbouring genes and its anchoring genes change when the neighbours of
+        each gene are looked up the way Record.get_cds_features_within_location is coded (see
+        _lookup_as_coded): beyond the two-part-window rule, a one-part window that overlaps the high part
+        of an origin-spanning gene does not find it when another gene outside the window sorts in between """
+    return _anchor_model(ctx, where, True)
+
+
+def window_edge(ctx: Context, where: Dict[str, Any]) -> bool:
+    """ circular; the rule looks at neighbouring genes and its anchoring genes change when, around every
+        gene whose cutoff-extended search window crosses the origin (two parts), only the genes lying
+        completely inside one part of that window count as neighbours - which is what
+        Record.get_cds_features_within_location does for a two-part location (with_overlapping is
+        ignored there; a gene across the seam of a two-part window covering the whole ring is lost too) """
+    return _anchor_model(ctx, where, False)
 
 
 def ring_closes(ctx: Context, where: Dict[str, Any]) -> bool:
@@ -194,7 +298,10 @@ def merged_ring_closes(ctx: Context, where: Dict[str, Any]) -> bool:
         extra = [i for i in ctx.hit_genes() if rule.get("ext") and model.extender_ok(rule["ext"], ctx.case["hits"][i])]
         for group in chk.chains(anchors, rule["cut"], ctx.geo):
             members = list(group) + [i for i in extra if i not in group]
-            if len(members) < 2 or not any(ctx.spanning(i) for i in members):
+            late_merge = (sum(1 for i in members if ctx.spanning(i)) >= 2
+                          or _upstream_run(ctx, members, rule["cut"]) is True
+                          or len(ctx.geo.union(group)) == ctx.length)
+            if len(members) < 2 or not late_merge:
                 continue
             for start, size in ctx.geo.spans(group):
                 if (start + size > ctx.length or size == ctx.length) and size + 2 * rule["nb"] >= ctx.length:
@@ -225,8 +332,67 @@ def spanning_member_own(ctx: Context, where: Dict[str, Any]) -> bool:
     return ctx.spanning_member(_own(where))
 
 
+def _upstream_run(ctx: Context, group: Sequence[int], cutoff: int) -> Optional[bool]:
+    """ for a chain with an origin-spanning gene: None if every other gene is reached by walking forward
+        from the origin (what the chain loop of find_protoclusters does), else whether the cutoff-extended
+        last gene before the origin itself wraps (then merge_over_origin may still join the two cores) """
+    genes = ctx.case["genes"]
+    spanning = [i for i in group if ctx.spanning(i)]
+    if not spanning or len(group) < 2:
+        return None
+    reach = max(genes[i][1] - ctx.length for i in spanning)
+    rest = sorted((i for i in group if i not in spanning), key=lambda i: genes[i][0])
+    index = 0
+    while index < len(rest) and genes[rest[index]][0] - reach < cutoff:
+        reach = max(reach, genes[rest[index]][1])
+        index += 1
+    if index == len(rest):
+        return None
+    return max(genes[i][1] for i in rest[index:]) + cutoff > ctx.length
+
+
 def spanning_member_any(ctx: Context, where: Dict[str, Any]) -> bool:
-    return any(ctx.spanning_member(group) for group in _all_groups(where))
+    """ circular; a chain (of the rule or of one of its superiors) holds an origin-spanning gene and a gene
+        that is chained to it only from before the origin: find_protoclusters starts a separate core for the
+        origin-spanning gene and its chain loop joins only what follows the origin """
+    cutoff = ctx.rule(where).get("cut", 0)
+    by_name = {r["n"]: r for r in ctx.case["rules"]}
+    for group in list(where.get("groups") or []) + list(where.get("reach") or []):
+        if _upstream_run(ctx, group, cutoff) is not None:
+            return True
+    for name, others in (where.get("sup_groups") or {}).items():
+        for other in others:
+            if _upstream_run(ctx, other, by_name[name]["cut"]) is not None:
+                return True
+    return False
+
+
+def spanning_member_unjoined(ctx: Context, where: Dict[str, Any]) -> bool:
+    """ as spanning_member_any, and the cutoff-extended gene before the origin does not wrap itself """
+    cutoff = ctx.rule(where).get("cut", 0)
+    return any(_upstream_run(ctx, group, cutoff) is False
+               for group in list(where.get("groups") or []) + list(where.get("reach") or []))
+
+
+def hull_swallows(ctx: Context, where: Dict[str, Any]) -> bool:
+    """ circular; a wrap-prone chain of the rule (the code base builds its hull instead of the span over the
+        origin) whose hull contains an anchoring gene of another chain of the same rule """
+    genes = ctx.case["genes"]
+    groups = list(where.get("groups") or [])
+    anchors = {i for group in groups for i in group}
+    for group in groups + list(where.get("reach") or []):
+        if not ctx.wrap_prone(group):
+            continue
+        others = anchors - set(group)
+        if any(ctx.spanning(i) for i in group):
+            if others:
+                return True
+            continue
+        low = min(genes[i][0] for i in group)
+        high = max(genes[i][1] for i in group)
+        if any(low <= genes[h][0] and genes[h][1] <= high for h in others):
+            return True
+    return False
 
 
 def some_chain_wrap_prone(ctx: Context, _where: Dict[str, Any]) -> bool:
@@ -305,23 +471,44 @@ def superior_overlaps(ctx: Context, where: Dict[str, Any]) -> bool:
 
 
 def zero_start_with_spanning_gene(ctx: Context, _where: Dict[str, Any]) -> bool:
-    """ circular; one gene spans the origin and another gene starts at base 0 (the C08 finding: the
-        gene lookup for a location starting at 0 stops at the origin-spanning gene) """
+    """ circular; one gene spans the origin and the core of some rule's chain (smallest span of the
+        chain, not crossing the origin) starts exactly at base 0: Record.get_cds_features_within_location
+        (the C08 finding) steps back onto the origin-spanning gene (its compound location also has
+        start 0), which is not inside the core, stops and returns no gene at all for that core """
     genes = ctx.case["genes"]
-    return (ctx.circular and any(g[1] > ctx.length for g in genes) and any(g[0] == 0 for g in genes))
+    if not (ctx.circular and any(g[1] > ctx.length for g in genes) and any(g[0] == 0 for g in genes)):
+        return False
+    for rule in ctx.case["rules"]:
+        anchors = chk.expected_anchors(ctx.case, rule, ctx.geo)
+        for group in chk.chains(anchors, rule["cut"], ctx.geo):
+            variants = [list(group)]
+            if rule.get("ext"):
+                must, may = chk.extender_closures(ctx.case, rule, group, ctx.geo)
+                variants += [list(group) + sorted(must), list(group) + sorted(may)]
+            for members in variants:
+                for start, size in ctx.geo.spans(members):
+                    if start == 0 and size < ctx.length:
+                        return True
+            # the code base also builds the hull of a chain that should wrap (C03-F6)
+            if min(genes[i][0] for i in group) == 0 and not any(ctx.spanning(i) for i in group):
+                return True
+    return False
 
 
 Mechanism = Tuple[str, str, Callable[[Context, Dict[str, Any]], bool]]
 
 # clause -> ordered list of (suffix, finding id, mechanism); the first that holds labels the check
 WRAP_ANY: Mechanism = ("wrap-prone", "C03-F6", wrap_prone_any)
+WRAP_SWALLOWS: Mechanism = ("wrap-prone-hull-swallows", "C03-F6", hull_swallows)
 SPAN_ANY: Mechanism = ("origin-spanning-gene-in-chain", "C03-F9", spanning_member_any)
+SPAN_UNJOINED: Mechanism = ("origin-spanning-gene-in-chain", "C03-F9", spanning_member_unjoined)
 SUP_OVER: Mechanism = ("superior-overlaps", "C03-F7", superior_overlaps)
 SUP_LATE: Mechanism = ("superior-chain-over-origin", "C03-F10", superior_chain_over_origin)
 
 MECHANISMS: Dict[str, List[Mechanism]] = {
     "anchoring-genes": [
         ("window-edge-over-origin", "C03-F4", window_edge),
+        ("lookup-scan-loses-neighbour", "C03-F12", lookup_scan_loses_neighbour),
     ],
     "neighbourhood": [("ring-closes", "C03-F5", ring_closes)],
     "no-unexpected-exception": [
@@ -333,9 +520,9 @@ MECHANISMS: Dict[str, List[Mechanism]] = {
     "core-smallest-span": [("wrap-prone", "C03-F6", wrap_prone_own)],
     "extenders-core": [("wrap-prone", "C03-F6", wrap_prone_own),
                        ("half-ring", "C03-F6", half_ring_with_extenders)],
-    "chains-maximal": [WRAP_ANY, SPAN_ANY, SUP_OVER, SUP_LATE],
-    "one-protocluster-per-chain": [WRAP_ANY, SPAN_ANY, SUP_LATE],
-    "kept-unless-superior-covers": [WRAP_ANY, SPAN_ANY, SUP_OVER, SUP_LATE],
+    "chains-maximal": [SUP_OVER, WRAP_SWALLOWS, SPAN_UNJOINED, SUP_LATE],
+    "one-protocluster-per-chain": [WRAP_SWALLOWS, SPAN_UNJOINED, SUP_LATE],
+    "kept-unless-superior-covers": [SUP_OVER, SUP_LATE, WRAP_ANY, SPAN_ANY],
     "dropped-when-superior-covers": [WRAP_ANY, SUP_LATE],
 }
 
@@ -376,6 +563,7 @@ FINDING_IDS = sorted({owner for entries in MECHANISMS.values() for _, owner, _ i
 CASE_PRIORITY = (
     "gene-at-0-with-origin-spanning-gene",
     "window-edge-over-origin",
+    "lookup-scan-loses-neighbour",
     "origin-spanning-gene-in-chain",
     "wrap-prone",
     "ring-closes",
@@ -396,14 +584,10 @@ def case_mechanisms(case: Dict[str, Any]) -> List[str]:
     chains_of: Dict[str, List[List[int]]] = {}
     for rule in case["rules"]:
         where = {"rule": rule["n"]}
-        if stale_cutoff_cache(ctx, where):
-            found.add("stale-cutoff-cache")
-        if whole_record_window(ctx, where):
-            found.add("whole-record-window")
-        if spanning_hit_gene(ctx, where):
-            found.add("origin-spanning-hit-gene")
         if window_edge(ctx, where):
             found.add("window-edge-over-origin")
+        elif lookup_scan_loses_neighbour(ctx, where):
+            found.add("lookup-scan-loses-neighbour")
         anchors = chk.expected_anchors(case, rule, ctx.geo)
         chains_of[rule["n"]] = chk.chains(anchors, rule["cut"], ctx.geo)
         for group in chains_of[rule["n"]]:
@@ -411,10 +595,7 @@ def case_mechanisms(case: Dict[str, Any]) -> List[str]:
             if rule.get("ext"):
                 _, may = chk.extender_closures(case, rule, group, ctx.geo)
                 members += sorted(may)
-                if ctx.circular and any(ctx.spanning(i) for i in ctx.hit_genes()
-                                        if model.extender_ok(rule["ext"], case["hits"][i]) or i in group):
-                    found.add("origin-spanning-hit-gene")
-            if ctx.spanning_member(members):
+            if _upstream_run(ctx, members, rule["cut"]) is not None or _upstream_run(ctx, group, rule["cut"]) is not None:
                 found.add("origin-spanning-gene-in-chain")
             if ctx.wrap_prone(members) or ctx.wrap_prone(group):
                 found.add("wrap-prone")
